@@ -521,6 +521,11 @@ impl Module for M {
 //   C02:outside-bbox:thick-triangle, C02:transparent-draws:thick-triangle, C01:pixels-vs-draw:thick-triangle,
 //   C07:draw-not-shifted:thick-triangle, C07:bbox-not-shifted:thick-triangle, C07:translate-mut-differs:thick-triangle
 //                                        the same predicates for the triangle moved by (dx,dy) against the unmoved one
+//   counters `triangle:scanlines:*`      (observations, no oracle: the property text is silent) the triangle's `ScanlineIterator` is
+//                                        not fused; polling `pixels()` beyond its first `None` must not yield again, and every row of
+//                                        bounding_box() should be painted when every scanline has a colour (`EGV_ROWHUNT=1` prints
+//                                        the op of every exception to stderr). Never seen on 3.5 million aimed ops (exhaustive 7x7
+//                                        lattice x widths 0..6 x alignments, slivers, flat, sharp corners, display scale).
 //   C19:tri-outline                      width 1 with a stroke colour: the stroke-coloured pixels are the union of the
 //                                        three edge lines' `Line::points()`, each edge in one of its two orientations
 //                                        (the predicate of the `tri` module)
